@@ -122,8 +122,8 @@ def build_mirror(it: Interp, p: Program, kind: str, layout=(("DEV", "V1"), ("DEV
     it.opts["assert_forks"] = False
     try:
         for dev, vn in layout:
-            parts = [part(p, f"Def{kind}", nm, old if old is not None else (None if kind == "BLOB" else "old")) for nm in names]
-            it.run_function(Fn(pm, cl), [msg(p, f"Def{kind}Vector", dev, vn, parts)], {})
+            parts = [part(p, f"Def{kind}", nm, old if old is not None else (None if kind == "BLOB" else "old"), label=f"Label{nm}") for nm in names]
+            it.run_function(Fn(pm, cl), [msg(p, f"Def{kind}Vector", dev, vn, parts, label=f"Label{vn}", group=f"Group{vn}")], {})
     finally:
         it.opts.clear()
         it.opts.update(saved)
